@@ -3,6 +3,7 @@ package main
 // C07 -- outcome independent of delivery order, duplication, early arrival; stale/foreign messages are no-ops.
 // (a) exhaustive delivery orders for the deterministic xor protocol (n=2,3) with one duplicate and one foreign/stale
 //     injection at every position; (b) sampled adversarial schedules for FROST keygen/sign;
+// (c) Doerner keygen/sign on the TwoPartyHandler under duplicates, stale re-sends, early deliveries (c07_twoparty.go);
 // every run is replayed in the Coq handler model (state-by-state correspondence).
 
 import (
@@ -154,6 +155,12 @@ func runC07(c *ctx) {
 	c.res.Rule = "xor: every delivery order of the in-flight envelopes (n=2,3) plus one duplicate and one foreign/stale injection at every position; " +
 		"FROST keygen/sign(+taproot): seeded schedules (random+dups, LIFO, latest-round-first/p2p-before-broadcast); non-trivial = at least one delivery; distinct by delivery order"
 	if c.replay != "" {
+		var rp schedReplay
+		if readJSON(c.replay, &rp) == nil && strings.HasPrefix(rp.Spec, "doerner-") {
+			c.res.Note("replay: re-running %s schedule %s seed %d", rp.Spec, rp.Policy, rp.Seed)
+			c.c07TwoParty(&rp)
+			return
+		}
 		c.res.Note("replay: re-running the named spec/seed/policy")
 	}
 	// ---------- (a) xor, exhaustive ----------
@@ -239,6 +246,8 @@ func runC07(c *ctx) {
 			}
 		}
 	}
+	// ---------- (c) TwoPartyHandler: Doerner keygen / sign ----------
+	c.c07TwoParty(nil)
 	if len(c.res.Samples) == 0 {
 		c.res.Sample(1, "no schedules ran")
 	}
